@@ -35,6 +35,8 @@ class Contract:
         self.notes = kw.pop("notes", "")
         self.aux = set(kw.pop("aux", []))
         self.options = dict(kw.pop("options", {}))
+        self.counter_axioms = list(kw.pop("counter_axioms", []))   # [(elem class, "expr over counters c['name'] and n")]
+        self.elem_facts = dict(kw.pop("elem_facts", {}))       # elem class -> ["fact over x"] assumed for every element (precondition)
         self.counters = dict(kw.pop("counters", {}))           # elem class -> {name: "pred over x"}
         self.ghost_exit = dict(kw.pop("ghost_exit", {}))         # "self.ghost_field" -> expr, applied at every exit before the clauses             # engine options, e.g. {"div": "uninterpreted"}                   # labels of auxiliary (non property-level) clauses
         if kw:
@@ -79,6 +81,11 @@ def contract(target: str, prop: str, **kw) -> Contract:
     REG.contracts[key] = c
     REG.order.append(key)
     return c
+
+
+def lemma(prop: str, name: str, vars: dict, assume: list, prove: str, note: str = ""):
+    """A lemma over the specification functions only (no code): `assume` => `prove` for all values of `vars`."""
+    REG.lemmas.append({"prop": prop, "name": name, "vars": dict(vars), "assume": list(assume), "prove": prove, "note": note})
 
 
 def construct(cls: str, module: str, init: dict, post=None):
